@@ -58,16 +58,28 @@ def _pruning_bias(el, n):
 MEAN_BASE, MEAN_PER_ATOM = 1e-4, 1e-5
 
 
-def _fraction_at_mono(comp, d, tol):
-    """is d (mean - average mass) the amount that follows from weighing the fractional part of every count at its monoisotopic
-    instead of its average mass?  Either neighbour is accepted as the rounded count of a count ending in .5"""
-    fr = [(k, v) for k, v in comp.items() if k not in ('e', 'p', 'n') and v != int(v)]
+def _explain_mean(comp, d, tol):
+    """is d (mean - average mass) the amount that follows from the two recorded causes?  (1) the fractional part of every count is
+    weighed at its monoisotopic instead of its average mass (either neighbour is accepted as the rounded count of a count ending in
+    .5); (2) the per-element pruning of the pattern of the rounded composition, modelled on the reference isotope table.
+    Returns the signature of the larger contribution, or None"""
+    items = [(k, v) for k, v in comp.items() if k not in ('e', 'p', 'n') and v != 0]
     opts = []
-    for k, v in fr:
+    for k, v in items:
         lo, hi = math.floor(v), math.ceil(v)
-        near = [lo] if v - lo < 0.5 - 1e-9 else [hi] if hi - v < 0.5 - 1e-9 else [lo, hi]
-        opts.append([-(v - c) * (refchem.atom_mass(k, False) - refchem.atom_mass(k, True)) for c in near])
-    return any(abs(d - sum(choice)) <= tol for choice in itertools.product(*opts))
+        opts.append([lo] if v - lo < 0.5 - 1e-9 else [hi] if hi - v < 0.5 - 1e-9 else [lo, hi])
+    single = lambda k: k[0].isdigit() or k in ('D', 'T')  # noqa  (one isotope: nothing to prune, average = monoisotopic)
+    modelled = all(k in LIGHT or k in HEAVY or single(k) for k, _v in items)
+    for choice in itertools.product(*opts):
+        fshift = sum(-(v - c) * (refchem.atom_mass(k, False) - refchem.atom_mass(k, True)) for (k, v), c in zip(items, choice))
+        if fshift != 0 and abs(d - fshift) <= tol:
+            return 'C14/mean/fractional-part-weighed-at-monoisotopic-mass'
+        if modelled:
+            bias = sum(_pruning_bias(k, int(c)) for (k, _v), c in zip(items, choice) if not single(k))
+            if abs(d - fshift - bias) <= tol + 0.02 * abs(bias):
+                return 'C14/mean/fractional-part-weighed-at-monoisotopic-mass' if abs(fshift) > abs(bias) else \
+                    'C14/mean/per-element-pruning-drops-abundance-of-many-isotope-elements'
+    return None
 
 
 def _exact(comp, neutron=False):
@@ -162,15 +174,12 @@ def check_case(case) -> Result:
         if abs(d) > tol:
             if particles and int_formula and abs(d + part_off) <= tol:
                 sig = 'C14/mean/particle-offset-ignored-for-integer-formula'
-            elif frac and _fraction_at_mono(comp, d, tol):
+            elif _explain_mean(comp, d, ne * 10 ** (-res) + 1e-4):
                 # the library computes the pattern of the composition rounded to whole atoms and shifts it by the MONOISOTOPIC mass of
-                # the rounded-off part, so the mean misses the average mass by (count - rounded count) * (average - monoisotopic)
-                sig = 'C14/mean/fractional-part-weighed-at-monoisotopic-mass'
-            elif int_formula and all(e in LIGHT or e in HEAVY for e in elements) and \
-                    abs(d - sum(_pruning_bias(e, comp[e]) for e in elements)) <= ne * 10 ** (-res) + 1e-4 + 0.02 * abs(d):
+                # the rounded-off part, so the mean misses the average mass by (count - rounded count) * (average - monoisotopic);
                 # every product below 1e-8 is dropped inside the per-element expansion (it cannot be switched off); for elements
                 # with many abundant isotopes most of the expansion consists of such terms and the mean drifts
-                sig = 'C14/mean/per-element-pruning-drops-abundance-of-many-isotope-elements'
+                sig = _explain_mean(comp, d, ne * 10 ** (-res) + 1e-4)
             else:
                 sig = 'C14/mean/wrong'
             r.fail('abundance-weighted mean equals the average mass', sig, expected=avg, got=mean, tol=tol, **ctx)
@@ -346,7 +355,7 @@ def check_estimate(case) -> Result:
         mean = sum(x * a for x, a in dist) / tot
         tol = MEAN_BASE + MEAN_PER_ATOM * sum(comp.values()) + 6 * 10 ** (-res)
         if abs(mean - avg) > tol:
-            sig = 'C14/mean/fractional-part-weighed-at-monoisotopic-mass' if _fraction_at_mono(comp, mean - avg, tol) else 'C14/estimate/mean'
+            sig = _explain_mean(comp, mean - avg, 6 * 10 ** (-res) + 1e-4) or 'C14/estimate/mean'
             r.fail('abundance-weighted mean equals the average mass', sig, got=mean, expected=avg, tol=tol, **ctx)
     return r
 
